@@ -72,10 +72,40 @@ Definition empty_chart : chart := mkChart [] [].
 (* ------------------------------------------------------------------ metadata expressions *)
 Definition asciib (t : list Z) : bool := forallb (fun c => (0 <=? c)%Z && (c <? 128)%Z) t.
 
+(* table functions (`if x == k: return v ... else: return dflt`): Python's == across int / float / bool, str only with str *)
+Definition mval_of_tv (v : tv) : mval := match v with TVText t => MText t | TVInt z => MInt z | TVNone => MNone end.
+Definition num_key (v : mval) : option Q :=
+  match v with MInt z => Some (inject_Z z) | MFloat q => Some q | MBool b => Some (if b then 1 else 0) | _ => None end.
+Fixpoint lookup_int (tb : list (Z * tv)) (dflt : tv) (k : Q) : tv :=
+  match tb with
+  | [] => dflt
+  | (z, v) :: tb' => if Qeq_bool k (inject_Z z) then v else lookup_int tb' dflt k
+  end.
+Fixpoint lookup_text (tb : list (list Z * tv)) (dflt : tv) (k : list Z) : tv :=
+  match tb with
+  | [] => dflt
+  | (t, v) :: tb' => if zlist_eqb t k then v else lookup_text tb' dflt k
+  end.
+(* min(<list>.offset) *)
+Fixpoint min_cells (acc : Q) (vs : list cell) : option Q :=
+  match vs with
+  | [] => Some acc
+  | CNum q :: vs' => min_cells (if Qle_bool q acc then q else acc) vs'
+  | _ => None
+  end.
+
 (* the context of one loop iteration: arguments, the mapset's attributes, the source chart and its position, and
    the ORACLE: the chart the implementation produced, consulted only for what is not modelled (EOpaque metadata
    expressions, FromComputed columns) *)
 Record ctx := mkCtx { x_args : cargs; x_set : meta; x_chart : chart; x_pos : nat; x_oracle : chart }.
+
+Definition truthy (v : mval) : bool :=
+  match v with
+  | MText [] | MBytes [] | MTexts [] | MInts [] | MNone | MBool false => false
+  | MInt z => negb (z =? 0)%Z
+  | MFloat q => negb (Qeq_bool q 0)
+  | _ => true
+  end.
 
 Fixpoint eval (x : ctx) (e : mexpr) : option mval :=
   match e with
@@ -110,6 +140,26 @@ Fixpoint eval (x : ctx) (e : mexpr) : option mval :=
   | ELevelName => match assocM (true, F_LEVEL) (x_set x) with  (* self.level[position of the chart in the mapset] *)
                   | Some (MInts l) => option_map MInt (nth_error l (x_pos x))
                   | _ => None end
+  | ELookupInt tb dflt e' => match eval x e' with
+                             | Some v => Some (mval_of_tv (match num_key v with Some q => lookup_int tb dflt q | None => dflt end))
+                             | None => None end
+  | ELookupText tb dflt e' => match eval x e' with
+                              | Some v => Some (mval_of_tv (match v with MText t => lookup_text tb dflt t | _ => dflt end))
+                              | None => None end
+  | EOr a b => match eval x a with
+               | Some v => if truthy v then Some v else eval x b
+               | None => None end
+  | EIf c a b => match eval x c with
+                 | Some v => if truthy v then eval x a else eval x b
+                 | None => None end
+  | ELen l => option_map (fun f => MInt (Z.of_nat (nrows f))) (assocZ l (c_lists (x_chart x)))
+  | EFirstOffset l => match assocZ l (c_lists (x_chart x)) with          (* None on an empty list, else min(offset) *)
+                      | Some f => match col_vals f COL_OFFSET with
+                                  | Some [] => Some MNone
+                                  | Some (CNum q :: vs) => option_map MFloat (min_cells q vs)
+                                  | _ => None end
+                      | None => None end
+  | EDefault _ _ v => eval x v
   | EOpaque _ => None
   end.
 
@@ -118,14 +168,6 @@ Definition meta_value (x : ctx) (on_set : bool) (f : Z) (e : mexpr) : option mva
   match e with
   | EOpaque _ => assocM (on_set, f) (c_meta (x_oracle x))
   | _ => eval x e
-  end.
-
-Definition truthy (v : mval) : bool :=
-  match v with
-  | MText [] | MBytes [] | MTexts [] | MInts [] | MNone | MBool false => false
-  | MInt z => negb (z =? 0)%Z
-  | MFloat q => negb (Qeq_bool q 0)
-  | _ => true
   end.
 
 (* ------------------------------------------------------------------ statements *)
@@ -188,6 +230,10 @@ Definition step_meta (x : ctx) (s : step) (M : meta) : option meta :=
                       | Some v => if a_raise (x_args x) && negb (truthy v) then None else Some M   (* raise ValueError *)
                       | None => None            (* reads a class default: not modelled *)
                       end
+  | SLocal _ e => match e with                   (* name = e: evaluated here (an exception is an exception) *)
+                   | EOpaque _ => Some M
+                   | _ => match eval x e with Some _ => Some M | None => None end
+                   end
   | SUnknown _ => None
   | _ => Some M
   end.
@@ -360,6 +406,11 @@ Fixpoint expr_srcs_okb (d : conv_desc) (e : mexpr) : bool :=
   | EListCopy e' | EToInt e' | EDecodeSjis e' | EEncodeSjis e' | EStr e' => expr_srcs_okb d e'
   | ECat a b => expr_srcs_okb d a && expr_srcs_okb d b
   | ELevelName => memZ F_LEVEL (cd_src_set_fields d)
+  | ELookupInt _ _ e' | ELookupText _ _ e' => expr_srcs_okb d e'
+  | EOr a b => expr_srcs_okb d a && expr_srcs_okb d b
+  | EIf c a b => expr_srcs_okb d c && expr_srcs_okb d a && expr_srcs_okb d b
+  | ELen l | EFirstOffset l => memZ l (map fst (cd_src_lists d))
+  | EDefault b f _ => memZ f (if b then cd_tgt_set_fields d else cd_tgt_map_fields d)
   | _ => true
   end.
 Fixpoint uses_chart (e : mexpr) : bool :=
@@ -367,19 +418,24 @@ Fixpoint uses_chart (e : mexpr) : bool :=
   | EAttr b _ => negb b
   | EListCopy e' | EToInt e' | EDecodeSjis e' | EEncodeSjis e' | EStr e' => uses_chart e'
   | ECat a b => uses_chart a || uses_chart b
-  | ELevelName => true
+  | ELevelName | ELen _ | EFirstOffset _ => true
+  | ELookupInt _ _ e' | ELookupText _ _ e' => uses_chart e'
+  | EOr a b => uses_chart a || uses_chart b
+  | EIf c a b => uses_chart c || uses_chart a || uses_chart b
   | _ => false
   end.
 Definition meta_okb (d : conv_desc) (s : step) : bool :=
   match s with
   | SMeta b f e => memZ f (if b then cd_tgt_set_fields d else cd_tgt_map_fields d)
                    && (negb b || cd_tgt_in_set d) && expr_srcs_okb d e
+  | SLocal _ e => expr_srcs_okb d e
   | _ => true
   end.
 (* statements outside the loop over a mapset's charts touch only the (shared) target mapset and read only the source mapset *)
 Definition outside_okb (s : step) : bool :=
   match s with
   | SMeta b _ e => b && negb (uses_chart e)
+  | SLocal _ e => negb (uses_chart e)
   | SCast _ _ _ _ _ | SShift | SGuardMode _ _ => false
   | _ => true
   end.
@@ -527,6 +583,7 @@ Definition mval_eqb (a b : mval) : bool :=
   | MText x, MText y | MBytes x, MBytes y | MInts x, MInts y => zlist_eqb x y
   | MInt x, MInt y | MOther x, MOther y => (x =? y)%Z
   | MFloat x, MFloat y => Qeq_bool x y
+  | MInt x, MFloat y | MFloat y, MInt x => Qeq_bool (inject_Z x) y        (* numbers by value (numpy / Python int vs float) *)
   | MBool x, MBool y => Bool.eqb x y
   | MTexts x, MTexts y => (fix go x y := match x, y with
                                          | [], [] => true
